@@ -304,7 +304,11 @@ class SingleLoss:
 
     def batch(self, param_keys=(), observed_params=None, obs_rows=None):
         E = self.E
-        pb = E.param_batch(param_keys) if param_keys else None
+        # param_keys == 'empty': a parameter batch dictionary that is present but empty (no key is batched)
+        if param_keys == 'empty':
+            pb, param_keys = {}, ()
+        else:
+            pb = E.param_batch(param_keys) if param_keys else None
         obs = None
         if 'obs' in self.terms:
             rows = obs_rows or ("B" if param_keys else "I")
